@@ -68,6 +68,9 @@ pub assume_specification<'a, P: core::str::pattern::Pattern>[ str::starts_with::
 pub assume_specification<'a, P: core::str::pattern::Pattern>[ str::ends_with::<P> ](s: &'a str, p: P) -> (r: bool) where for<'b> <P as core::str::pattern::Pattern>::Searcher<'b>: core::str::pattern::ReverseSearcher<'b>;
 pub assume_specification<'a, P: core::str::pattern::Pattern>[ str::contains::<P> ](s: &'a str, p: P) -> (r: bool);
 pub assume_specification<'a, P: core::str::pattern::Pattern>[ str::strip_prefix::<P> ](s: &'a str, p: P) -> (r: Option<&'a str>);
+// the character / byte iterators of a str and their `count`: total, result unspecified (a length computed in characters
+// instead of bytes then fails the contracts that speak about byte offsets)
+pub assume_specification<'a>[ <std::str::Chars<'a> as Iterator>::count ](it: std::str::Chars<'a>) -> (r: usize);
 
 /// bytes of the input of the parse in progress (uninterpreted: proofs hold for every input)
 pub uninterp spec fn the_input() -> Seq<u8>;
@@ -301,8 +304,8 @@ tags C03 C04
 ret r
 spec:
         requires self.e() <= usize::MAX
-        ensures r == self.e()
-before `self.offset + self.text.len()`:
+        ensures r == self.e()     // [C04] the end of a fragment is its offset plus its length in BYTES
+enter:
         broadcast use axiom_str_len_bound;
 @*/
 }
